@@ -230,11 +230,13 @@ struct BatchingAdapter {
     inner: GraphAdapter,
     schedule: Schedule,
     next_call: RefCell<usize>,
+    /// number of elements the GraphAdapter's iterators have yielded (a measure of the run's size)
+    items: Rc<std::cell::Cell<u64>>,
 }
 
 impl BatchingAdapter {
     fn new(inner: GraphAdapter, schedule: Schedule) -> Self {
-        BatchingAdapter { inner, schedule, next_call: RefCell::new(0) }
+        BatchingAdapter { inner, schedule, next_call: RefCell::new(0), items: Rc::new(std::cell::Cell::new(0)) }
     }
     fn next_sched(&self) -> CallSched {
         let mut r = self.next_call.borrow_mut();
@@ -245,6 +247,13 @@ impl BatchingAdapter {
     }
     fn calls(&self) -> usize {
         *self.next_call.borrow()
+    }
+    fn items(&self) -> u64 {
+        self.items.get()
+    }
+    fn counted<'a, T: 'a>(&self, it: Box<dyn Iterator<Item = T> + 'a>) -> Box<dyn Iterator<Item = T> + 'a> {
+        let items = self.items.clone();
+        Box::new(it.inspect(move |_| items.set(items.get() + 1)))
     }
 }
 
@@ -265,7 +274,7 @@ impl<'a> Adapter<'a> for BatchingAdapter {
         resolve_info: &ResolveInfo,
     ) -> VertexIterator<'a, Self::Vertex> {
         let cs = self.next_sched();
-        let inner = self.inner.resolve_starting_vertices(edge_name, parameters, resolve_info);
+        let inner = self.counted(self.inner.resolve_starting_vertices(edge_name, parameters, resolve_info));
         buffered(inner, &cs.output, cs.eager, cs.polite)
     }
 
@@ -278,7 +287,7 @@ impl<'a> Adapter<'a> for BatchingAdapter {
     ) -> ContextOutcomeIterator<'a, V, FieldValue> {
         let cs = self.next_sched();
         let contexts = buffered(contexts, &cs.input, cs.eager, cs.polite);
-        let inner = self.inner.resolve_property(contexts, type_name, property_name, resolve_info);
+        let inner = self.counted(self.inner.resolve_property(contexts, type_name, property_name, resolve_info));
         buffered(inner, &cs.output, cs.eager, cs.polite)
     }
 
@@ -292,7 +301,7 @@ impl<'a> Adapter<'a> for BatchingAdapter {
     ) -> ContextOutcomeIterator<'a, V, VertexIterator<'a, Self::Vertex>> {
         let cs = self.next_sched();
         let contexts = buffered(contexts, &cs.input, cs.eager, cs.polite);
-        let inner = self.inner.resolve_neighbors(contexts, type_name, edge_name, parameters, resolve_info);
+        let inner = self.counted(self.inner.resolve_neighbors(contexts, type_name, edge_name, parameters, resolve_info));
         let inner_chunk = cs.inner;
         let eager = cs.eager;
         let polite = cs.polite;
@@ -315,7 +324,7 @@ impl<'a> Adapter<'a> for BatchingAdapter {
     ) -> ContextOutcomeIterator<'a, V, bool> {
         let cs = self.next_sched();
         let contexts = buffered(contexts, &cs.input, cs.eager, cs.polite);
-        let inner = self.inner.resolve_coercion(contexts, type_name, coerce_to_type, resolve_info);
+        let inner = self.counted(self.inner.resolve_coercion(contexts, type_name, coerce_to_type, resolve_info));
         buffered(inner, &cs.output, cs.eager, cs.polite)
     }
 }
@@ -402,11 +411,24 @@ fn schedules_for(rng: &mut Rng, calls: usize, budget: usize, mode: Mode) -> Vec<
     v
 }
 
-fn run_batched(c: &EngineCase, s: &Schedule) -> (Outcome, usize) {
+fn run_batched(c: &EngineCase, s: &Schedule) -> (Outcome, usize, u64) {
+    #[allow(clippy::arc_with_non_send_sync)]
     let ad = Arc::new(BatchingAdapter::new(GraphAdapter::new(c.dataset.clone()), s.clone()));
     let o = run_with(ad.clone(), c.indexed.clone(), c.args.clone());
     let calls = ad.calls();
-    (o, calls)
+    let items = ad.items();
+    (o, calls, items)
+}
+
+fn size_bucket(items: u64) -> &'static str {
+    match items {
+        0..=9 => "0-9",
+        10..=99 => "10-99",
+        100..=999 => "100-999",
+        1000..=9999 => "1000-9999",
+        10000..=99999 => "10000-99999",
+        _ => "100000+",
+    }
 }
 
 fn outcome_detail(o: &Outcome) -> Value {
@@ -681,15 +703,17 @@ fn run_c02(seed: u64, n: usize, oracle_only: bool, budget: usize, out: &mut Out)
             continue;
         }
         // number of resolver calls of the unbuffered run
-        let (o0, calls) = run_batched(&c, &Schedule::default());
+        let (o0, calls, items) = run_batched(&c, &Schedule::default());
+        out.count(&format!("size:{}", size_bucket(items)));
         if show_outcome(&o0) != direct_s {
             out.oracle_fail("pass-through BatchingAdapter differs from GraphAdapter", case_input_json(&c), json!({"direct": direct_s, "wrapped": outcome_detail(&o0)}));
         }
         max_calls = max_calls.max(calls);
         out.count(&format!("calls:{}", if calls >= 12 { "12+".to_string() } else { calls.to_string() }));
         let mut srng = rng.fork();
-        for s in schedules_for(&mut srng, calls, budget, Mode { eager: true, polite: None }) {
-            let (o, _) = run_batched(&c, &s);
+        let budget_here = if items > 20000 { 1 } else { budget };
+        for s in schedules_for(&mut srng, calls, budget_here, Mode { eager: true, polite: None }) {
+            let (o, _, _) = run_batched(&c, &s);
             runs += 1;
             let os = show_outcome(&o);
             out.count(&format!("sched:{}", s.name.split('-').next().unwrap_or("?")));
@@ -1007,6 +1031,11 @@ fn interact_tie(rng: &mut Rng, count: usize, out: &mut Out) {
 
 type Row = BTreeMap<Arc<str>, FieldValue>;
 
+/// runs whose adapter iterators yield more elements than this are traced with the plain adapter only
+const TRACE_ITEMS_LIMIT: u64 = 3000;
+/// ... and beyond this not at all (one trace would take gigabytes)
+const TRACE_SKIP_LIMIT: u64 = 30000;
+
 enum Traced {
     Done(Vec<Row>, Trace<u64>),
     ArgError,
@@ -1193,12 +1222,23 @@ fn run_c15(seed: u64, n: usize, oracle_only: bool, budget: usize, out: &mut Out)
                 continue;
             }
         };
+        let (_, calls, items) = run_batched(&c, &Schedule::default());
+        out.count(&format!("size:{}", size_bucket(items)));
+        // every recorded operation stores a copy of its whole context (nested fold contents
+        // included), so traces grow quadratically: very large runs are traced once, not ~90 times
+        let huge = items > TRACE_ITEMS_LIMIT;
+        if huge {
+            out.count("batching-families-skipped(size)");
+        }
+        if items > TRACE_SKIP_LIMIT {
+            out.count("skipped(too large to trace)");
+            continue;
+        }
         // plain adapter
         let traced = run_traced(GraphAdapter::new(c.dataset.clone()), &c);
         check_traced("plain", None, traced, &direct_rows, &direct_s, &c, None, out);
         // batching adapters under the tap: first the ones that only read ahead at pull time, then the
         // ones that read ahead inside the resolver call
-        let (_, calls) = run_batched(&c, &Schedule::default());
         let mut srng = rng.fork();
         // (a) read ahead at pull time only and never poll an exhausted input again: must replay;
         // (b) poll exhausted inputs again (like the repository's VariableChunkIterator);
@@ -1209,6 +1249,9 @@ fn run_c15(seed: u64, n: usize, oracle_only: bool, budget: usize, out: &mut Out)
             ("batching-in-call", Mode { eager: true, polite: Some(true) }, Some("K-trace-in-call-prefetch")),
         ];
         for (label, mode, class) in families {
+            if huge {
+                break;
+            }
             for s in schedules_for(&mut srng, calls, budget, mode) {
                 let ad = BatchingAdapter::new(GraphAdapter::new(c.dataset.clone()), s.clone());
                 let traced = run_traced(ad, &c);
